@@ -416,24 +416,41 @@ def gen_hull(rng, i):
     P = _make_cloud(rng, cls, d)
     as_int = bool(cls == "lattice" and np.all(P == np.round(P)) and rng.integers(2))
     return {"P": P.astype(int) if as_int else P, "cls": cls, "n": int(n), "engine": eng,
-            "seed": _seed(rng), "seed2": int(rng.integers(0, 2 ** 31 - 1))}
+            "seed": _seed(rng), "seed2": int(rng.integers(0, 2 ** 31 - 1)),
+            # documented argument forms: seed as numpy Generator, engine as scipy QMCEngine instance
+            "seedform": "generator" if rng.integers(4) == 0 else "int",
+            "engform": "instance" if (eng is not None and rng.integers(4) == 0) else "name"}
+
+
+def _seed_arg(inp, seed):
+    return np.random.default_rng(int(seed)) if inp.get("seedform") == "generator" else int(seed)
+
+
+def _engine_arg(inp, eng, d, seed):
+    if eng is None or inp.get("engform") != "instance":
+        return eng
+    from scipy.stats import qmc
+    return {"Sobol": qmc.Sobol, "Halton": qmc.Halton, "LHC": qmc.LatinHypercube}[eng](d + 1, seed=int(seed) % (2 ** 32))
 
 
 def chk_hull(inp, c):
     P, n, eng, seed = inp["P"], int(inp["n"]), inp["engine"], int(inp["seed"])
     d = P.shape[1]
+    c.cell("seed=" + inp.get("seedform", "int"), "engine-arg=" + inp.get("engform", "name"))
     c.cell("api=sample_in_hull", "engine=" + _engine_name(eng), f"d={d}", "cloud=" + inp["cls"], f"n={n}", "l1=none",
            "dtype=" + P.dtype.kind)
     Pf = np.asarray(P, dtype=float)
     if np.linalg.matrix_rank(Pf - Pf.mean(0), tol=1e-9 * _extent(Pf)) < d:
         c.unmet("cloud not full-dimensional")
     hull = _oracle_hull(c, Pf)
-    X = _check_shape_finite(c, _call_quiet(c, dreye.sample_in_hull, P.copy(), n, seed=seed, engine=eng,
-                                           _where="dreye.sample_in_hull"), n, d, "sample_in_hull")
+    X = _check_shape_finite(c, _call_quiet(c, dreye.sample_in_hull, P.copy(), n, seed=_seed_arg(inp, seed),
+                                           engine=_engine_arg(inp, eng, d, seed), _where="dreye.sample_in_hull"),
+                            n, d, "sample_in_hull")
     if X is None:
         return
     _membership_cloud(c, Pf, hull, X, np.random.default_rng([seed, 13]))
-    X2 = np.asarray(_call_quiet(c, dreye.sample_in_hull, P.copy(), n, seed=seed, engine=eng, _where="dreye.sample_in_hull (2nd call)"))
+    X2 = np.asarray(_call_quiet(c, dreye.sample_in_hull, P.copy(), n, seed=_seed_arg(inp, seed),
+                                engine=_engine_arg(inp, eng, d, seed), _where="dreye.sample_in_hull (2nd call)"))
     c.require(X2.shape == X.shape and np.array_equal(X, X2), "identical seed gives bit-identical samples",
               mechanism="not-reproducible:" + _engine_name(eng), engine=_engine_name(eng), seed=seed, n=n,
               n_rows_differing=int(np.sum(np.any(X != X2, axis=1))) if X2.shape == X.shape else -1)
